@@ -372,6 +372,13 @@ impl OutstationSession {
         writer: &mut TransportWriter,
         database: &mut DatabaseHandle,
     ) -> RunError {
+        // Start every communication session from a clean slate. The resets performed when a
+        // session ends are skipped if the future of the previous session was dropped (the TCP
+        // server does this when a new connection pre-empts the running one), and a link error
+        // during a confirm wait leaves the database's response selection in place.
+        self.state.reset();
+        database.reset();
+
         loop {
             if let Err(err) = self.run_idle_state(io, reader, writer, database).await {
                 self.state.reset();
